@@ -322,7 +322,13 @@ def range_obligations(pid, tier, seed):
     stale_ = [v for v in (shapes.stale_variant(s_) for s_ in base_) if v is not None and shapes.n_ranks(v) <= (9 if tier == 'quick' else 12)]
     fams_ = ['II', 'UU', 'LL', 'QQ'] if tier == 'quick' else ['II', 'UU', 'LL', 'QQ', 'IU', 'LQ']
     for fam in fams_:
-        tps = base_ + stale_ + (big_ if fam == fams_[0] else [])
+        if tier == 'quick':
+            # quick: first family = core + stale variants + the rest of the N=5 catalogue up to 4 keys; last family = core + stale;
+            # the two in between = core shapes up to 4 keys
+            tps = (base_ + stale_ + [s_ for s_ in big_ if shapes.n_ranks(s_) <= 4]) if fam == fams_[0] else \
+                (base_ + stale_) if fam == fams_[-1] else [s_ for s_ in base_ if shapes.n_ranks(s_) <= 4]
+        else:
+            tps = base_ + stale_ + (big_ if fam == fams_[0] else [])
         for tp in tps:
             mm = shapes.n_ranks(tp)
             for low in (0, 1):
@@ -579,10 +585,10 @@ def cmpfail_obligations(pid, tier, seed):
         if small and P['group'] in ('write', 'del', 'read', 'range'):
             # one argument key, fault index <= 12 (these containers make fewer comparisons than that)
             obs.append(dict(ob, id=ob['id'] + '/exc', args=[a_ for a_ in ob['args'] if a_[0] != 'y'] + [('ec', 'int')],
-                            pre=[p_ for p_ in ob['pre'] if ' f ' not in p_] + ['1 <= f <= 12', '0 <= ec < 5']))
+                            pre=[p_ for p_ in ob['pre'] if ' f ' not in p_] + ['1 <= f <= 12', '0 <= ec < 3']))
     bounds.update(failing_comparison_index='1..40; indices beyond the comparisons an operation makes are its fault-free path', per_condition_timeout_s=t,
                   exception_classes='CmpError (a plain Exception subclass) everywhere; on leaves of 1 and 3 keys and the two smallest multi-leaf core shapes also subclasses of '
-                                    'ValueError, KeyError, TypeError, IndexError, AttributeError (solver-chosen)')
+                                    'ValueError, KeyError, TypeError (solver-chosen)')
     return {'obligations': obs, 'bounds': bounds}
 
 
@@ -666,7 +672,7 @@ def evict_obligations(pid, tier, seed):
                             args=[('ka', 'int'), ('kb', 'int'), ('ga', 'bool'), ('gb', 'bool')], pre=['0 <= ka < 4', '0 <= kb < 4'],
                             params=dict(family=fam, impl=impl, op=op_), timeout=t))
     obs += leaf_ir_obligations(pid, tier, 'pins')
-    obs += tree_ir_obligations(pid, tier, ['pins'], big=False, fams=['UU', 'LL'] if tier == 'quick' else ['II', 'UU', 'LL', 'QQ'])
+    obs += tree_ir_obligations(pid, tier, ['pins'], big=False, fams=['UU'] if tier == 'quick' else ['II', 'UU', 'LL', 'QQ'])
     bounds.update(per_condition_timeout_s=t, eviction_point='the e-th key comparison of the operation sweeps the whole cache (e solver-chosen, '
                   '1..40; beyond the last comparison = no sweep inside); before the operation all nodes are ghosts or all active (solver-chosen)')
     return {'obligations': obs, 'bounds': bounds}
